@@ -4,7 +4,9 @@ import (
 	"fmt"
 	"reflect"
 	"strings"
+	"sync"
 
+	"gitee.com/xuesongtao/protoc-go-valid/valid"
 	"verif/harness/internal/gal"
 )
 
@@ -216,6 +218,59 @@ func runC13(c *Ctx) error {
 		w.Add("CTotal "+e+" "+gal.Bool(panicked), desc, fmt.Sprintf("%s:%s:%s:err%v", entry, vname, rk, err != nil))
 		w.Count("entry." + entry)
 		_ = reflect.TypeOf(v)
+	}
+	// ---- several callers meet a type nobody has validated before at the same moment (both miss the type cache, both
+	// store their analysis): no caller may panic, and every one gets the clause
+	{
+		rounds := 150
+		if c.Thorough {
+			rounds = 1500
+		}
+		var mu sync.Mutex
+		bad := 0
+		for k := 0; k < rounds; k++ {
+			fields := []reflect.StructField{
+				{Name: "A", Type: reflect.TypeOf(""), Tag: reflect.StructTag(fmt.Sprintf(`valid:"required|M%dc" x:"%d"`, k, k))},
+				{Name: "B", Type: reflect.TypeOf([]int{}), Tag: `valid:"required"`},
+				{Name: fmt.Sprintf("F%d", k), Type: reflect.TypeOf(0)}}
+			for f := 0; f < 150; f++ { // a long analysis: a wide window in which the other callers miss the cache as well
+				fields = append(fields, reflect.StructField{Name: fmt.Sprintf("G%d", f), Type: reflect.TypeOf(0), Tag: reflect.StructTag(fmt.Sprintf(`valid:"ge=%d"`, f))})
+			}
+			st := reflect.StructOf(fields)
+			src := reflect.New(st).Interface()
+			var wg sync.WaitGroup
+			start := make(chan struct{})
+			for g := 0; g < 8; g++ {
+				wg.Add(1)
+				go func() {
+					defer wg.Done()
+					defer func() {
+						if p := recover(); p != nil {
+							mu.Lock()
+							if bad < 5 {
+								violations = append(violations, map[string]interface{}{"kind": "panic", "entry": "struct", "value": "fresh type met by 8 callers at once",
+									"src": fmt.Sprintf("%T", src), "panic": fmt.Sprint(p)})
+							}
+							bad++
+							mu.Unlock()
+						}
+					}()
+					<-start
+					if err := valid.Struct(src); err == nil {
+						mu.Lock()
+						if bad < 5 {
+							violations = append(violations, map[string]interface{}{"kind": "missing-error", "entry": "struct", "value": "fresh type met by 8 callers at once", "src": fmt.Sprintf("%T", src)})
+						}
+						bad++
+						mu.Unlock()
+					}
+				}()
+			}
+			close(start)
+			wg.Wait()
+		}
+		w.Count("concurrent-first-use")
+		w.Dist["concurrent_first_use.rounds"] = rounds
 	}
 	w.Extra["violations"] = violations
 	return w.Flush()
